@@ -177,3 +177,44 @@ def wiring_events():
                     "jitter_keys": sorted(eb.jitter_fns.unwrap().keys()),
                     "param_vars": sorted(v.name for v in model.vars.values() if v.parameter)})
     return evs
+
+
+def builder_ops_events(rng, n=40):
+    import re
+
+    evs = []
+    for _ in range(n):
+        N = rng.randint(3, 7)
+        nodes, inp, names = [], [], []
+        for i in range(N):
+            k = rng.randint(0, min(i, 2))
+            ins = rng.sample(range(1, i + 1), k) if i else []
+            nm = rng.choice(["a", "ab", "b", "", "xa"]) + (str(i) if rng.random() < 0.8 else "")
+            nm = "" if nm.isdigit() else nm
+            if ins:
+                node = lsl.Calc(lambda *a: 0.0, *[nodes[j - 1] for j in ins], _name=nm, update_on_init=False)
+            else:
+                node = lsl.Value(float(i), _name=nm)
+            nodes.append(node)
+            inp.append(ins)
+            names.append(nm)
+        added = sorted(rng.sample(range(1, N + 1), rng.randint(1, N)))
+        gb = lsl.GraphBuilder().add(*[nodes[a - 1] for a in added])
+        idx = {id(nd): i + 1 for i, nd in enumerate(nodes)}
+        if rng.random() < 0.5:
+            old = rng.randint(1, N)
+            new_node = lsl.Value(99.0, _name="new")
+            nodes.append(new_node)
+            idx[id(new_node)] = N + 1
+            gb.replace_node(nodes[old - 1], new_node)
+            evs.append({"ev": "replace_node", "inp": inp + [[]], "added": added, "old": old, "new": N + 1,
+                        "inp_after": [[idx[id(x)] for x in nd.inputs] for nd in nodes],
+                        "added_after": sorted(idx[id(x)] for x in gb.nodes)})
+        else:
+            pat, rep = rng.choice([("a", "Q"), ("^a", "z"), ("b$", ""), ("[0-9]", "#")])
+            gb.rename(pat, rep)
+            sub = {nm: re.sub(pat, rep, nm) for nm in set(names) if nm}
+            sub[""] = ""
+            evs.append({"ev": "rename", "inp": inp, "added": added, "names": names, "sub": sub,
+                        "names_after": [nd.name for nd in nodes]})
+    return evs
